@@ -40,6 +40,8 @@ type ctx struct {
 	rootDetFns     map[*ssa.Function]bool // functions that are detectors of root-level non-text nodes
 	rootDetGlobals map[*ssa.Global]bool
 	pure           map[*ssa.Function]bool
+	tupleMemo      map[string][]kind
+	tupleWhy       map[string][]string
 	curFvK         []kind // kinds of the captured variables for the next analyseCtx call (closures created by detectors)
 }
 
@@ -62,6 +64,7 @@ type analysis struct {
 	sofSrc   map[ssa.Value]ssa.Value
 	why      []string
 	handover []string
+	resIdx   int // the result position being judged (tuple helpers)
 }
 
 func isBool(t types.Type) bool {
@@ -306,7 +309,25 @@ func (a *analysis) compute(v ssa.Value) kind {
 	case *ssa.MakeInterface:
 		return at(x.X)
 	case *ssa.Extract:
-		return at(x.Tuple)
+		if k := at(x.Tuple); k != kTop {
+			return k
+		}
+		if call, ok := x.Tuple.(*ssa.Call); ok {
+			if g := call.Call.StaticCallee(); g != nil && g.Blocks != nil && strings.HasPrefix(pkgPath(g), mod) {
+				var ks []kind
+				for _, arg := range call.Call.Args {
+					ks = append(ks, a.kAt(arg, call.Block()))
+				}
+				rs, why := a.c.analyseTuple(g, ks)
+				if x.Index < len(rs) {
+					if rs[x.Index] == kTop {
+						a.why = append(a.why, fmt.Sprintf("result #%d of %s is TOP: %v", x.Index, g.Name(), why))
+					}
+					return rs[x.Index]
+				}
+			}
+		}
+		return kTop
 	case *ssa.Phi:
 		ks := map[kind]int{}
 		same := true
@@ -730,7 +751,7 @@ func (a *analysis) retSet(pred, blk *ssa.BasicBlock, seen map[[2]int]bool, out m
 	last := blk.Instrs[len(blk.Instrs)-1]
 	switch t := last.(type) {
 	case *ssa.Return:
-		v := t.Results[0]
+		v := t.Results[a.resIdx]
 		if ph, ok := v.(*ssa.Phi); ok && ph.Block() == blk {
 			for i, p := range blk.Preds {
 				if p == pred {
@@ -866,6 +887,26 @@ func (c *ctx) analyseCtx(f *ssa.Function, argK []kind, fns []*ssa.Function) fnRe
 		return res
 	}
 	a := &analysis{c: c, f: f, argK: argK, fnArgs: fns, fvK: fvK, guess: map[*ssa.Phi]kind{}, tainted: map[*ssa.Phi]bool{}, sofSrc: map[ssa.Value]ssa.Value{}}
+	if !a.classify() {
+		// the phi classification did not reach a fixpoint: nothing may be concluded from the last guesses
+		res.ret = kTop
+		res.why = append(res.why, f.Name()+": classification of loop-carried values did not converge")
+		c.memo[key] = res
+		return res
+	}
+	overall, why := a.boolResult(0)
+	res.ret = overall
+	res.why = append(res.why, why...)
+	res.why = append(res.why, a.why...)
+	res.handover = a.handover
+	c.memo[key] = res
+	return res
+}
+
+// classify runs the kind classification of f's values to a fixpoint of the
+// loop-carried guesses and the taint set; false when it does not converge.
+func (a *analysis) classify() bool {
+	f := a.f
 	converged := false
 	for iter := 0; iter < 40; iter++ {
 		a.kinds = map[ssa.Value]kind{}
@@ -926,15 +967,16 @@ func (c *ctx) analyseCtx(f *ssa.Function, argK []kind, fns []*ssa.Function) fnRe
 			converged = true
 			break
 		}
-		}
-		if !converged {
-		// the phi classification did not reach a fixpoint: nothing may be concluded from the last guesses
-		res.ret = kTop
-		res.why = append(res.why, f.Name()+": classification of loop-carried values did not converge")
-		c.memo[key] = res
-		return res
-		}
-		overall := kStable
+	}
+	return converged
+}
+
+// boolResult judges the boolean result at position idx: S, U or TOP.
+func (a *analysis) boolResult(idx int) (kind, []string) {
+	f := a.f
+	overall := kStable
+	var why []string
+	a.resIdx = idx
 	for _, b := range f.Blocks {
 		last := b.Instrs[len(b.Instrs)-1]
 		switch t := last.(type) {
@@ -982,12 +1024,12 @@ func (c *ctx) analyseCtx(f *ssa.Function, argK []kind, fns []*ssa.Function) fnRe
 			}
 			if !okb {
 				overall = kTop
-				res.why = append(res.why, fmt.Sprintf("%s: branch at block %d on %s-condition %s not simulable", f.Name(), b.Index, ck, t.Cond))
+				why = append(why, fmt.Sprintf("%s: branch at block %d on %s-condition %s not simulable", f.Name(), b.Index, ck, t.Cond))
 			} else if overall == kStable {
 				overall = kU
 			}
 		case *ssa.Return:
-			v := t.Results[0]
+			v := t.Results[idx]
 			if _, ok := v.(*ssa.Const); ok {
 				continue
 			}
@@ -1014,15 +1056,160 @@ func (c *ctx) analyseCtx(f *ssa.Function, argK []kind, fns []*ssa.Function) fnRe
 				}
 			default:
 				overall = kTop
-				res.why = append(res.why, fmt.Sprintf("%s: returns %s-valued %s", f.Name(), rk, v))
+				why = append(why, fmt.Sprintf("%s: returns %s-valued %s", f.Name(), rk, v))
 			}
 		}
 	}
-	res.ret = overall
-	res.why = append(res.why, a.why...)
-	res.handover = a.handover
-	c.memo[key] = res
-	return res
+	return overall, why
+}
+
+// analyseTuple judges a module helper with several results under the argument
+// kinds argK, one kind per result position:
+//   - a boolean result is judged like a detector's verdict (S, U or TOP);
+//   - a byte-slice result is EXT (y's value extends x's) when every return gives
+//     nil or an S/EXT value and, wherever the two runs can part (a branch on a U
+//     or D condition), the run on the shorter header can only reach returns that
+//     give nil at this position: nil is extended by anything;
+//   - any other result is S only for a pure function of stable arguments.
+func (c *ctx) analyseTuple(f *ssa.Function, argK []kind) ([]kind, []string) {
+	key := "tuple:" + f.String() + fmt.Sprint(argK)
+	nres := f.Signature.Results().Len()
+	top := make([]kind, nres)
+	for i := range top {
+		top[i] = kTop
+	}
+	if r, ok := c.tupleMemo[key]; ok {
+		return r, c.tupleWhy[key]
+	}
+	if c.tupleMemo == nil {
+		c.tupleMemo = map[string][]kind{}
+		c.tupleWhy = map[string][]string{}
+	}
+	c.tupleMemo[key] = top // recursion
+	a := &analysis{c: c, f: f, argK: argK, guess: map[*ssa.Phi]kind{}, tainted: map[*ssa.Phi]bool{}, sofSrc: map[ssa.Value]ssa.Value{}}
+	if !a.classify() {
+		return top, []string{f.Name() + ": classification of loop-carried values did not converge"}
+	}
+	out := make([]kind, nres)
+	var why []string
+	isNil := func(v ssa.Value) bool {
+		k, ok := v.(*ssa.Const)
+		return ok && k.Value == nil
+	}
+	for i := 0; i < nres; i++ {
+		t := f.Signature.Results().At(i).Type()
+		switch {
+		case isBool(t):
+			k, w := a.boolResult(i)
+			out[i] = k
+			why = append(why, w...)
+		case isByteSlice(t):
+			k := kStable
+			for _, b := range f.Blocks {
+				r, ok := b.Instrs[len(b.Instrs)-1].(*ssa.Return)
+				if !ok || isNil(r.Results[i]) {
+					continue
+				}
+				switch a.kAt(r.Results[i], b) {
+				case kStable:
+				case kExt:
+					k = kExt
+				default:
+					k = kTop
+					why = append(why, fmt.Sprintf("%s: result #%d %s is neither stable nor an extension", f.Name(), i, r.Results[i]))
+				}
+			}
+			// where the runs part, the run on the shorter header may only reach nil returns
+			for _, b := range f.Blocks {
+				iff, ok := b.Instrs[len(b.Instrs)-1].(*ssa.If)
+				if !ok || k == kTop {
+					continue
+				}
+				var xSide *ssa.BasicBlock
+				switch a.k(iff.Cond) {
+				case kStable:
+					continue
+				case kU: // false on x, true on y
+					xSide = b.Succs[1]
+				case kD:
+					xSide = b.Succs[0]
+				default:
+					k = kTop
+					why = append(why, fmt.Sprintf("%s: branch at block %d on a condition of unknown direction", f.Name(), b.Index))
+					continue
+				}
+				ySide := b.Succs[0]
+				if ySide == xSide {
+					ySide = b.Succs[1]
+				}
+				// returns reachable from `from` before `stop` (nil: to the end): all nil at this position? any at all?
+				rets := func(from, stop *ssa.BasicBlock) (allNil, none bool) {
+					allNil, none = true, true
+					seen := map[*ssa.BasicBlock]bool{}
+					var walk func(x *ssa.BasicBlock)
+					walk = func(x *ssa.BasicBlock) {
+						if seen[x] || x == stop {
+							return
+						}
+						seen[x] = true
+						if r, ok := x.Instrs[len(x.Instrs)-1].(*ssa.Return); ok {
+							none = false
+							if !isNil(r.Results[i]) {
+								allNil = false
+							}
+						}
+						for _, sc := range x.Succs {
+							walk(sc)
+						}
+					}
+					walk(from)
+					return
+				}
+				okDiv := false
+				if allNil, _ := rets(xSide, nil); allNil {
+					okDiv = true // the shorter run gives nil whatever the longer one gives
+				} else if allNil, _ := rets(xSide, ySide); allNil && reachFrom(xSide)[ySide] && a.phisTolerant(ySide) {
+					okDiv = true // the shorter run re-joins the longer one's block, giving at most nil before
+				} else if _, none := rets(ySide, xSide); none && reachFrom(ySide)[xSide] && a.phisTolerant(xSide) {
+					okDiv = true // the longer run re-joins the shorter one's block without returning before
+				}
+				if !okDiv {
+					k = kTop
+					why = append(why, fmt.Sprintf("%s: after the branch at block %d the shorter run can return a non-nil result #%d while the longer one is elsewhere", f.Name(), b.Index, i))
+				}
+				if k != kTop {
+					k = kExt
+				}
+			}
+			out[i] = k
+		default:
+			st := true
+			for _, ak := range argK {
+				if ak != kStable {
+					st = false
+				}
+			}
+			if st && c.isPure(f) {
+				out[i] = kStable
+			} else {
+				out[i] = kTop
+				why = append(why, fmt.Sprintf("%s: result #%d is not a bool or byte slice and the arguments are not stable", f.Name(), i))
+			}
+		}
+	}
+	why = append(why, a.why...)
+	c.tupleMemo[key] = out
+	c.tupleWhy[key] = why
+	return out, why
+}
+
+func isByteSlice(t types.Type) bool {
+	sl, ok := t.Underlying().(*types.Slice)
+	if !ok {
+		return false
+	}
+	b, ok := sl.Elem().Underlying().(*types.Basic)
+	return ok && b.Kind() == types.Byte
 }
 
 // phisTolerant: every phi of the re-join block is classified with a kind that
